@@ -89,6 +89,23 @@ def replay_case(case):
             bad.append((what + ".composition", o, {"comp": exp["comp"], "q": exp["q"]}))
         if pidx is not None and getattr(sub, "phase_idx", None) != pidx:
             bad.append((what + ".phase_idx", getattr(sub, "phase_idx", None), pidx))
+    # phases as a mapping with a default index; default_phase_idx=None refuses unknown suffixes
+    try:
+        o = Species.from_formula(t, phases={"(aq)": 0, "(s)": 5, "(g)": 2}, default_phase_idx=7).phase_idx
+    except Exception as e:
+        o = type(e).__name__
+    if o != exp["phase_dict"]:
+        bad.append(("Species.from_formula[phases=dict].phase_idx", o, exp["phase_dict"]))
+    try:
+        o = Species.from_formula(t, default_phase_idx=None).phase_idx
+        raised = False
+    except ValueError:
+        o, raised = "ValueError", True
+    except Exception as e:
+        o, raised = type(e).__name__, None
+    if raised != exp["phase_none_raises"] or (not raised and o != exp["phase_default"]):
+        bad.append(("Species.from_formula[default_phase_idx=None]", o,
+                    "ValueError" if exp["phase_none_raises"] else exp["phase_default"]))
     return bad
 
 
